@@ -30,15 +30,15 @@ var Styles = []Style{
 	{Name: "plain", Empty: 0.3, Newline: 0.05, Comment: 0, Redundant: 0.03},
 	{Name: "airy", Empty: 0.1, Newline: 0.4, Comment: 0.05, Redundant: 0.1, Escapes: true},
 	{Name: "commented", Empty: 0.2, Newline: 0.2, Comment: 0.5, Redundant: 0.1},
-	{Name: "parens", Empty: 0.5, Newline: 0.1, Comment: 0.1, Redundant: 0.5, Escapes: true},
-	{Name: "wild", Empty: 0.4, Newline: 0.3, Comment: 0.3, Redundant: 0.25, Escapes: true},
+	{Name: "parens", Empty: 0.5, Newline: 0.1, Comment: 0.1, Redundant: 0.3, Escapes: true},
+	{Name: "wild", Empty: 0.4, Newline: 0.3, Comment: 0.3, Redundant: 0.15, Escapes: true},
 }
 
 // SubsetStyles are the layouts of the bootstrap subset.
 var SubsetStyles = []Style{
 	{Name: "subset-compact", Subset: true, Empty: 1},
 	{Name: "subset-plain", Subset: true, Empty: 0.3, Newline: 0.2, Redundant: 0.05},
-	{Name: "subset-airy", Subset: true, Empty: 0.05, Newline: 0.5, Redundant: 0.3},
+	{Name: "subset-airy", Subset: true, Empty: 0.3, Newline: 0.5, Redundant: 0.12},
 }
 
 // binding strength of the syntactic levels, weakest first
@@ -188,7 +188,7 @@ func (p *printer) expr(e ast.Expression, min int, depth int) {
 	if lv < min {
 		parens = 1
 	}
-	for parens < 3 && depth < 12 && p.r.Float64() < p.st.Redundant {
+	for parens < 3 && depth < 5 && p.r.Float64() < p.st.Redundant {
 		parens++
 	}
 	for i := 0; i < parens; i++ {
@@ -209,7 +209,7 @@ func (p *printer) code(c *ast.CodeBlock) {
 
 func (p *printer) bare(e ast.Expression, depth int) {
 	p.mark(e)
-	d := depth + 1
+	d := depth // number of enclosing pairs of parentheses
 	switch e := e.(type) {
 	case *ast.ChoiceExpr:
 		for i, a := range e.Alternatives {
